@@ -101,13 +101,14 @@ CLAIMS = {
          "(universes <= 6/7), model SCCs = library SCCs as sets.",
          "Trusted: Coq kernel + vm_compute; model; harness; CBC (through PuLP), igraph and the auxiliary heuristics are outside the model and only judged per run.",
          "DESIGN.md section 4, C06"),
- "C07": ("Coq theorem on the model of the ParFront merge loop (strict exchange + transitivity); consistent_with by exhaustive correspondence",
+ "C07": ("Coq theorems on the model of the ParFront merge loop (strict exchange + transitivity) and of consistent_with (total, iff); model = code by vm_compute correspondence",
          "Machine-checked end to end on the model: from ANY partition of the universe without back arcs, the merge loop terminates, "
          "concatenates consecutive groups without reordering, ends with all consecutive groups robustly linked, and EVERY optimal consensus "
          "ranks each group strictly before the later ones; is_optimal <-> score = opt. Outside the model (judged per run with the verified "
          "boolean tests): igraph's SCC order. Per run: merge-loop model = library on the library's SCC order; all optimal position functions "
-         "enumerated in Coq respect the returned partition (<= 5/6 elements). PARTIAL for the last clause of the property: consistent_with = "
-         "'respects' is decided by correspondence on ALL (partition, ranking) pairs over 3/4 elements, not by a theorem.",
+         "enumerated in Coq respect the returned partition (<= 5/6 elements). consistent_with (model) is proved total and True exactly when the "
+         "element counts agree and earlier groups are strictly before later ones (C07_consistent_with_iff); model = code on ALL (partition, "
+         "ranking) pairs over 3/4 elements.",
          "Trusted: Coq kernel + vm_compute; model; harness; igraph's SCC order taken as given.",
          "DESIGN.md section 4, C07"),
  "C05": ("Coq-verified brute-force optimum + exchange lemma; every exact run judged in Coq against it",
